@@ -4,6 +4,8 @@ CONSTANTS
   Tampers <- MCTampers
   Flags <- MCFlags
   Anchors = {TRUE, FALSE}
+  Fallbacks = {"none"}
+  FailoverRule = "statement"
 INIT Init
 NEXT Next
 CHECK_DEADLOCK FALSE
